@@ -160,6 +160,20 @@ rev = [json.loads(l) for l in open(os.path.join(W, "r.ndjson"))]
 demo("Trace_RemoveTxn: failed removal lost the vertex", "Trace_RemoveTxn", [rev[0]], lambda c: c[0]["res"].__setitem__("has", False))
 demo("Trace_RemoveTxn: a removal step not observed", "Trace_RemoveTxn", [rev[0]], lambda c: c[0]["res"].__setitem__("sites", c[0]["res"]["sites"][:1]))
 
+# ---- Trace_FlipTxn
+open(scripts, "w").write(json.dumps({"cfg": {"kind": "k1ins", "atomic": False, "ctxclean": True}, "choices": ["bad"], "outcome": "Err", "sites": [], "changed": False}) + "\n"
+                         + json.dumps({"cfg": {"kind": "k2", "atomic": False, "ctxclean": True}, "choices": ["ok", "ok", "ok", "ok"], "outcome": "Ok",
+                                       "sites": ["flip.after_insert_cells", "flip.after_wire", "flip.after_remove_cells"], "changed": True}) + "\n")
+subprocess.run([VD, "fliptxn", "--hist", scripts, "--part", "0/1", "--out", os.path.join(W, "f.ndjson")], check=True, stdout=subprocess.DEVNULL)
+fev = [json.loads(l) for l in open(os.path.join(W, "f.ndjson"))]
+fbad = [e for e in fev if e["args"]["script"]["choices"] == ["bad"]][0]
+fok = [e for e in fev if e["args"]["script"]["choices"] != ["bad"]][0]
+demo("Trace_FlipTxn: refused k=1 insertion left its vertex (pre-F-M behaviour)", "Trace_FlipTxn", [fbad],
+     lambda c: c[0]["res"].update({"changed": True, "valid": False, "watch_in": True}))
+demo("Trace_FlipTxn: committed flip kept an old cell", "Trace_FlipTxn", [fok], lambda c: c[0]["res"].__setitem__("old_in", True))
+demo("Trace_FlipTxn: hull still fresh after a committed flip", "Trace_FlipTxn", [fok], lambda c: c[0]["res"].__setitem__("hull_stale", False))
+demo("Trace_FlipTxn: a flip step not observed", "Trace_FlipTxn", [fok], lambda c: c[0]["res"].__setitem__("sites", c[0]["res"]["sites"][:2]))
+
 bad = [r for r in results if not (r[1] and r[2])]
 print("selftest:", "OK" if not bad else "FAILED %s" % bad)
 sys.exit(0 if not bad else 1)
